@@ -392,7 +392,10 @@ struct NumHarness : vh::Harness {
     std::string cls = "none";
     if (finite_dec && cls_exp_field<T>(L)) cls = "exp-field-range";
     else if (finite_dec && cls_frac_zeros<T>(L)) cls = "frac-leading-zeros-19";
-    else if (near_max && ref <= Lim<T>::mx) cls = "near-max-overflow";
+    // float conversions only: on the unchanged tree no double near DBL_MAX overflows (probed 2026-09-30: every spelling with
+    // 15..31 significant digits and 1..19 integer digits of the 600 largest doubles, plain and range-checked: 375 416 calls,
+    // no infinity, no ERANGE), so a double that does is a NEW violation, not this finding
+    else if (sizeof(T) == 4 && near_max && ref <= Lim<T>::mx) cls = "near-max-overflow";
 
     if (sto) {
       // exception table
